@@ -29,6 +29,8 @@ func main() {
 		cmdCheck(os.Args[2:])
 	case "dump":
 		cmdDump(os.Args[2:])
+	case "prelude":
+		fmt.Print(specTab().prelude)
 	case "selftest":
 		cmdSelftest(os.Args[2:])
 	default:
